@@ -187,6 +187,27 @@ def use_stream(st, rng, res) -> None:
         off = rng.randrange(0, max(size, 1))
         call(lambda: (st.seek(off), st.read(rng.choice([1, 512, 9000, 70000])))[1])
     call(lambda: (st.seek(max(0, size - 5000)), st.read())[1])
+    # the objects the library hands out (the stream, its extent / layer objects) offer no working way to modify the evidence:
+    # whatever mutating method they expose is called; it may raise or do nothing, the digest / handle monitors decide
+    seen = set()
+    todo = [st]
+    while todo and len(seen) < 40:
+        ob = todo.pop()
+        if id(ob) in seen or ob is None:
+            continue
+        seen.add(id(ob))
+        if type(ob).__module__.startswith("dissect.hypervisor"):
+            for name, args in (("write", (b"VF-MUTATION-PROBE",)), ("writelines", ([b"VF-MUTATION-PROBE"],)), ("truncate", (0,)), ("truncate", ()), ("flush", ())):
+                fn = getattr(ob, name, None)
+                if callable(fn):
+                    res["cnt"]["mutating_methods_called_on_library_objects"] = res["cnt"].get("mutating_methods_called_on_library_objects", 0) + 1
+                    call(fn, *args)
+            for attr in ("disks", "disk", "parent", "backing_file", "streams", "qcow2"):
+                sub_ = getattr(ob, attr, None)
+                if isinstance(sub_, (list, tuple)):
+                    todo.extend(x[1] if isinstance(x, tuple) else x for x in sub_)
+                elif sub_ is not None and not isinstance(sub_, (int, str, bytes)):
+                    todo.append(sub_)
 
 
 # ------------------------------------------------------------------------------------------- entry points
@@ -256,6 +277,7 @@ def build_and_run(k: str, rng, ctx, root: Path, fault, res, phase: str = "both")
             wvdi.build(rng, block_size=4096, nblocks=8, tag=6)[0].write_to(root / "d.vdi")
             whds_.build_hds(rng, version=2, m_sectors=8, nclusters=6, tag=7, in_use=rng.random() < 0.5)[0].write_to(root / "d.hds")
             wvmdk.build_hosted(rng, capacity=300, grain=8, ngte=64, tag=8)[0].write_to(root / "s.vmdk")
+            wvmdk.build_flat(rng, nsectors=rng.randrange(8, 300), tag=9)[0].write_to(root / "raw-flat.vmdk")
         elif k == "xmlcfg":
             (root / "vm.ovf").write_text(wcfg.gen_ovf(rng)[0])
             (root / "vm.vbox").write_text(wcfg.gen_vbox(rng)[0])
@@ -340,7 +362,7 @@ def build_and_run(k: str, rng, ctx, root: Path, fault, res, phase: str = "both")
                 from dissect.hypervisor.disk.vmdk import VMDK
 
                 last = None
-                for cls, fn in ((QCow2, "snap.qcow2"), (VHD, "d.vhd"), (VHDX, "d.vhdx"), (VDI, "d.vdi"), (HDS, "d.hds"), (VMDK, "s.vmdk")):
+                for cls, fn in ((QCow2, "snap.qcow2"), (VHD, "d.vhd"), (VHDX, "d.vhdx"), (VDI, "d.vdi"), (HDS, "d.hds"), (VMDK, "s.vmdk"), (VMDK, "raw-flat.vmdk")):
                     hmode = rng.choice(["rb", "r+b", "r+b"])
                     try:
                         fh = FlakyFile(root / fn, rng.randrange(1, 9)) if fault == "ioerror" else open(root / fn, hmode)
@@ -352,6 +374,7 @@ def build_and_run(k: str, rng, ctx, root: Path, fault, res, phase: str = "both")
                     def f(cls=cls, fh=fh):
                         d = cls(fh)
                         out = [len(d.read(70000))]
+                        use_stream(d, rng, res)
                         for sn in getattr(d, "snapshots", []) or []:
                             # views derived from an opened image (internal snapshots) must not re-open the file for writing either
                             v = sn.open()
@@ -528,6 +551,11 @@ def run(case: dict, ctx) -> dict:
                 # corrupt the evidence *after* opening is not meaningful; re-open on corrupted evidence instead
                 pass
             use_stream(o.value.stream, rng, res)
+            for h_ in getattr(o.value, "handles", None) or []:
+                if getattr(h_, "mutations", None):
+                    res["viol"].append({"what": "write/truncate reached a caller-supplied handle through an object the library handed out", "mech": MECH,
+                                        "detail": {"entry_point": k, "calls": h_.mutations[:3]}})
+                    break
         elif "vf/" in (o.tb or "") and "dissect/hypervisor" not in (o.tb or ""):
             raise o.exc
         outcome = o
